@@ -97,6 +97,32 @@ type Obj struct {
 	rt    *Runtime
 }
 
+// VObj is held by VALUE in the context ("vobj"); its probe method has a pointer
+// receiver, so plush finds it through its pointer fallback.
+type VObj struct {
+	Name string
+	rt   *Runtime
+}
+
+func (o *VObj) PV(id int, v interface{}) (interface{}, error) {
+	if o.rt.enter(id, "", pkMethod) {
+		if o.rt.Kind == fkWrongKind {
+			return wrongKind{"method"}, nil
+		}
+		return v, o.rt.Fault // non-nil first result together with the error
+	}
+	return v, nil
+}
+
+// stringer / HTMLer values for the output path
+type stg struct{ s string }
+
+func (s stg) String() string { return "stg(" + s.s + ")" }
+
+type htm struct{ s string }
+
+func (h htm) HTML() template.HTML { return template.HTML("<i>" + h.s + "</i>") }
+
 type Inner struct {
 	Label string
 	Depth int
@@ -143,10 +169,16 @@ func (rt *Runtime) plainData() map[string]interface{} {
 			{Name: "o0", N: 10, Tags: []string{"a0", "b0"}, Nums: []int{7, 8, 9}, Inner: &Inner{Label: "i0", Depth: 0}, rt: rt},
 			{Name: "o1", N: 11, Tags: []string{"a1", "b1"}, Nums: []int{7, 8, 9}, Inner: &Inner{Label: "i1", Depth: 1}, rt: rt},
 		},
-		"om": map[string]*Obj{"x": {Name: "ox", N: 12, rt: rt}},
+		"om":   map[string]*Obj{"x": {Name: "ox", N: 12, rt: rt}},
+		"vobj": VObj{Name: "val", rt: rt},
+		"stg":  stg{"s" + fmt.Sprint(v)},
+		"htm":  htm{"h&" + fmt.Sprint(v)},
 	}
 	if rt.Prog != nil && rt.Prog.JS {
 		d["contentType"] = "application/javascript"
+	}
+	if v == 1 {
+		d["TIME_FORMAT"] = "2006-01-02"
 	}
 	return d
 }
@@ -154,6 +186,7 @@ func (rt *Runtime) plainData() map[string]interface{} {
 // helperData is the function part: probes and the partial feeder.
 func (rt *Runtime) helperData() map[string]interface{} {
 	d := map[string]interface{}{
+		"n2": 8, // also present in plainData with another value: helpers are laid over data
 		"pv": func(id int, v interface{}) (interface{}, error) {
 			if rt.enter(id, "", pkValue) {
 				if rt.Kind == fkWrongKind {
@@ -251,6 +284,9 @@ func (rt *Runtime) helperData() map[string]interface{} {
 				return "partial result", rt.Fault
 			}
 			return help.Render("{<%= n2 %>:" + strings.ReplaceAll(strings.ReplaceAll(s, "<", "("), "%", "pct") + "}")
+		},
+		"pr2": func(inner int, help plush.HelperContext) (string, error) {
+			return help.Render(fmt.Sprintf("{<%%= pv(%d, n1) %%>}", inner))
 		},
 		"partialFeeder": func(name string) (string, error) {
 			if rt.enter(0, name, pkFeeder) {
